@@ -380,7 +380,6 @@ class Model:
             y if not c else x ->  x if c else y
             a <= x and x <= b ->  a <= x <= b        (x free of calls, the same text on both sides)
             v = E; return v   ->  return E           (v bound here only and read there only)
-            {"a": x, "b": y}  ->  dict(a=x, b=y)     (every key a string that is an identifier)
         """
         import re as _re
 
@@ -417,15 +416,6 @@ class Model:
                             ast.dump(a.comparators[0]) == ast.dump(b.left) and \
                             isinstance(a.ops[0], (ast.Lt, ast.LtE)) == isinstance(b.ops[0], (ast.Lt, ast.LtE)):
                         return ast.copy_location(ast.Compare(left=a.left, ops=[a.ops[0], b.ops[0]], comparators=[a.comparators[0], b.comparators[0]]), n)
-                return n
-
-            def visit_Dict(self, n):
-                n = self.generic_visit(n)
-                import keyword
-                if n.keys and all(isinstance(k, ast.Constant) and isinstance(k.value, str) and k.value.isidentifier() and not keyword.iskeyword(k.value)
-                                  for k in n.keys) and len({k.value for k in n.keys}) == len(n.keys):
-                    return ast.copy_location(ast.Call(func=ast.copy_location(ast.Name(id="dict", ctx=ast.Load()), n), args=[],
-                                                      keywords=[ast.copy_location(ast.keyword(arg=k.value, value=v), k) for k, v in zip(n.keys, n.values)]), n)
                 return n
 
             def visit_If(self, n):
